@@ -70,10 +70,11 @@ AllZero(x) == \A i \in 1..Len(x) : x[i] = 0
 (* (A v_j)_i = d_j v_ij for the columns j in J.
    Left side: exact integers times quantised v, scaled by 2^S to meet the
    right side, a product of two quantised values. *)
-EigCols(A, Vt, V, d, J, S, w, mag) ==
+EigColsOn(A, Vt, V, d, J, S, la, sl) ==
     \A j \in J : \A i \in 1..Len(A) :
         Near(Pow2(S) * Dot(A[i], Vt[j]), V[i][j] * d[j],
-             Pow2(S) * IQTol(A[i]) + HalfUp(Abs(V[i][j]) + Abs(d[j]) + 1) + EvdSlack(w, Len(A), mag))
+             Pow2(S) * HalfUp(la[i]) + HalfUp(Abs(V[i][j]) + Abs(d[j]) + 1) + sl)
+EigCols(A, Vt, V, d, J, S, w, mag) == EigColsOn(A, Vt, V, d, J, S, RowL1(A), EvdSlack(w, Len(A), mag))
 
 EigMag(A, V, d, n, S) == Max2(n * MaxAbsM(A) * Pow2(S) * MaxAbsM(V), MaxAbsM(V) * MaxAbsV(d))
 (* the slack only looks at mag for f32, where BalOK keeps amp <= 16 *)
